@@ -993,6 +993,14 @@ pub fn gen_corpus(rng: &mut Rng, n: usize) -> String {
     s
 }
 
+/// multi-byte white space (U+FEFF, U+00A0, U+2003) where `delete` expects its operand, followed by `.p`:
+/// the diagnostic of this syntax error makes swc slice the source in the middle of that character
+/// (known finding F14; only generated in a tagged minority of the C13 runs)
+pub fn gen_unicode_space_after_delete(rng: &mut Rng) -> String {
+    let sp = *rng.pick(&["\u{feff}", "\u{a0}", "\u{2003}", "\u{3000}"]);
+    format!("function f(o, a, b) {{\n  const v = a + b;\n  delete {}.p;\n  return v;\n}}\n", sp)
+}
+
 /// a program that starts with a directive prologue in unusual shapes (several directives, stray `;`)
 pub fn gen_prologue(rng: &mut Rng) -> String {
     let d = *rng.pick(&["'use strict';", "\"use strict\";;", "'use client'; 'use strict';", "'use client';\n'use strict';;", "'use asm';;;", "\"use strict\";;(function () { return 1; })();", ";'use strict';"]);
